@@ -63,7 +63,7 @@ def run(ctx, rep):
     rng = ctx.rng
     rep.rule = ("real runs of AgeFitnessEA (selection sizes 2..5) and GeneralizedCrowdingEA on int-list chromosomes whose fitness is a deterministic "
                 "function of the genome with NaN/inf-valued genomes; islands of 4..10 for 3..12 generations; serial archipelagos of 2..4 islands with "
-                "migration every call; halls of fame of capacity 1..4; distinct = distinct (algorithm, seed); every run is non-trivial")
+                "migration every call; halls of fame of capacity 1..4; tiny tie-free populations over 30..60 generations (oversize fronts); selection level on embedded fitness values; distinct = distinct (algorithm, seed); every run is non-trivial")
     rep.assumptions = ["the fitness function is deterministic in the genome"]
     for t in range(ctx.n(120, 1500)):
         kind = "agefit" if t % 2 == 0 else "crowding"
